@@ -29,6 +29,11 @@ def e2_units(tier, only=None):
                 if tier == 'quick' and v >= 2 and d not in (1, 4, 10, 13, 19, 20):
                     continue
                 shapes.append(('hx_i2s64', [d, kind, v], '%s/d%d/%s' % (nm, d, ('buffer', 'grouped-buffer', 'string', 'grouped-string')[v])))
+    # round trip through the library's own stringTo< T>() (strtol/strtoul modelled per the C standard), every type, every decade
+    for t, (nm, maxd, sg) in enumerate((('u8', 3, 0), ('i8', 3, 1), ('u16', 5, 0), ('i16', 5, 1), ('u32', 10, 0), ('i32', 10, 1), ('u64', 20, 0), ('i64', 19, 1))):
+        for d in range(1, maxd + 1):
+            for neg in ((0, 1) if sg else (0,)):
+                shapes.append(('hx_i2s_back', [t, d, neg], '%s%s/d%d/back' % (nm, '-' if neg else '', d)))
     if only:
         shapes = [s for s in shapes if re.search(only, s[2])]
     u_int = E2Unit('int2string_e2int', os.path.join(HERE, 'w_i2s_e2.cpp'), lib_srcs=LIB, shapes=shapes, timeout=300, validate_vectors=0, int_mode=True,
